@@ -151,6 +151,9 @@ func (e *Engine) callValue(s *State, fr *Frame, dst *ssa.Call, cc *ssa.CallCommo
 	fr.callCnt[calleeName]++
 	anchor := fmt.Sprintf("%s#%d", calleeName, e.callOrdinal(site))
 	e.applyAts(s, fr, anchor, "before", cc, args, nil, site)
+	if s.dead {
+		return nil, true // "at ... before stop|cut" ended this path
+	}
 
 	setResult := func(v Value) {
 		if dst != nil {
@@ -758,6 +761,11 @@ func (e *Engine) applyAts(s *State, fr *Frame, anchor, when string, cc *ssa.Call
 		case "stop":
 			// the rest of the function is outside the clauses under proof on this root
 			s.dead = true
+		case "cut", "start":
+			e.applyCut(s, fr, at, anchor, site, vars, vtypes)
+			if s.dead {
+				return
+			}
 		case "set":
 			env := e.mkEnv(s, fr, vars, vtypes)
 			tv, err := e.eval(env, at.Clause.Expr)
